@@ -116,6 +116,9 @@ class InputFactory:
         if sort == 'int':
             v = I.fresh_int(hint)
             return SymInput(sort, v, lambda m: mint(m, v), coords=[v])
+        if sort == 'small':
+            v = I.fresh_int(hint)
+            return SymInput(sort, v, lambda m: mint(m, v), coords=[v])
         if sort == 'nat':
             v = I.fresh_int(hint)
             I.assume(v >= 0)
